@@ -607,7 +607,7 @@ theorem full_complete_pruned [DecidableEq H] (pv : PrunedView hf f N b V) (id : 
           (prunedSeg V id (id.positions (mmr N)) proof).leafData) (mmr (id.idx * 2 ^ id.height)) := by
       rw [prunedSeg_leaves]; exact hinv
     have hid : (prunedSeg V id (id.positions (mmr N)) proof).id = id := rfl
-    unfold Segment.root
+    rw [root_of_nonempty hf _ (mmr N) (some b) (by rw [hid]; exact hne0)]
     rw [hid]
     generalize prunedSeg V id (id.positions (mmr N)) proof = S0 at hholds hinv' ⊢
     rw [hpos, hfull]
@@ -750,7 +750,7 @@ theorem final_complete_pruned [DecidableEq H] (pv : PrunedView hf f N b V) (id :
       rw [← forestFrom_tiles id.height id.idx (finalLeaves id N) hfl]; simp
     have hadd := mmr_add_low id.height id.idx (finalLeaves id N) hfl
     rw [← hN] at hadd
-    unfold Segment.root
+    rw [root_of_nonempty hf _ (mmr N) (some b) (by rw [hid]; exact hne0)]
     rw [hid]
     generalize prunedSeg V id (id.positions (mmr N)) proof = S0 at hholds hinv hdead ⊢
     rw [hposT, hfull, hpk]
